@@ -109,9 +109,11 @@ func runBy(f *ssa.Function, pkg, name string) bool {
 	return found
 }
 
-func c16Channels(c *engine.Ctx, li *engine.LockInfo) {
+func c16Channels(c *engine.Ctx, li *engine.LockInfo) { c16ChannelsPrefixed(c, li, "R3") }
+
+func c16ChannelsPrefixed(c *engine.Ctx, li *engine.LockInfo, rid string) {
 	p := c.P
-	c.Rule("R3", "channel typestate: close sites of struct-field channels are protected against a second close (once / flag or select-probe under a mutex), unguarded sites are unique per field and never weaker than recorded; a closed channel is not reused; sends on closable channels are recover-protected")
+	c.Rule(rid, "channel typestate: close sites of struct-field channels are protected against a second close (once / flag or select-probe under a mutex), unguarded sites are unique per field and never weaker than recorded; a closed channel is not reused; sends on closable channels are recover-protected")
 	var sites []*closeSite
 	for _, f := range p.RepoFuncs() {
 		engine.ForEachInstr(f, func(in ssa.Instruction) {
@@ -187,7 +189,7 @@ func c16Channels(c *engine.Ctx, li *engine.LockInfo) {
 
 	// closed channel reuse: the field is closed in a method that is not paired with a reset, while another function
 	// creates the channel only when the field is nil (so a closed, non-nil channel is reused)
-	c.Rule("R3b", "a channel field that is (re)created only when it is nil must be reset when it is closed; otherwise the closed channel is reused by the next user (later close or send panics)")
+	c.Rule(rid+"b", "a channel field that is (re)created only when it is nil must be reset when it is closed; otherwise the closed channel is reused by the next user (later close or send panics)")
 	nb := 0
 	for fv, ss := range byField {
 		owner := ss[0].owner
@@ -251,7 +253,7 @@ func c16Channels(c *engine.Ctx, li *engine.LockInfo) {
 	c.Note("channel fields with nil-conditional creation: %d", nb)
 
 	// sends
-	c.Rule("R3c", "every send on a struct-field channel that is closed somewhere in the program is recover-protected (closure run by errors.PanicToError or function with deferred recover), or is in the function holding the field's only close")
+	c.Rule(rid+"c", "every send on a struct-field channel that is closed somewhere in the program is recover-protected (closure run by errors.PanicToError or function with deferred recover), or is in the function holding the field's only close")
 	ns := 0
 	closedFields := map[*types.Var]bool{}
 	for fv := range byField {
